@@ -16,6 +16,8 @@ import (
 	stakingkeeper "github.com/cosmos/cosmos-sdk/x/staking/keeper"
 	"github.com/ethereum/go-ethereum/common"
 
+	"github.com/haqq-network/haqq/crypto/ethsecp256k1"
+	ethtypes "github.com/haqq-network/haqq/types"
 	"github.com/haqq-network/haqq/x/vesting/types"
 	zz "github.com/haqq-network/haqq/zzverif"
 )
@@ -274,5 +276,76 @@ func VerifC09_FunderUpdate() {
 	zz.Assert(after.FunderAddress == c09Dest.String(), "the new funder is recorded")
 	_, err = k.Clawback(sdk.WrapSDKContext(ctx), &types.MsgClawback{FunderAddress: c09Funder.String(), AccountAddress: c09Acc.String()})
 	zz.Assert(err != nil, "the previous funder can no longer claw back")
+	zz.Reach("end")
+}
+
+// VerifC03_ScheduleKeepsAccountIdentity: applying a vesting schedule to an account that already exists - converting a plain
+// account (MsgConvertIntoVestingAccount is signed by the funder alone; a liquid-vesting redeem reaches the same code) or
+// merging into a vesting account - keeps what signature verification binds to: address, account number, public key and
+// above all the sequence. An account whose sequence restarts can have every transaction it ever signed executed again.
+func VerifC03_ScheduleKeepsAccountIdentity() {
+	now := zz.AnyInt64In("now", 0, c09MaxStart+3*c09MaxLen)
+	k, ctx, ak, _ := c09World(now)
+	seq := zz.AnyUint64("sequence")
+	num := zz.AnyUint64("accountNumber")
+	pk := &ethsecp256k1.PubKey{Key: []byte{2, 1, 2, 3, 4, 5, 6, 7, 8, 9, 10, 11, 12, 13, 14, 15, 16, 17, 18, 19, 20, 21, 22, 23, 24, 25, 26, 27, 28, 29, 30, 31, 32}}
+	base := authtypes.NewBaseAccountWithAddress(c09Acc)
+	_ = base.SetSequence(seq)
+	_ = base.SetAccountNumber(num)
+	_ = base.SetPubKey(pk)
+	merge := zz.AnyBool("targetIsVestingAccount")
+	if merge {
+		va, _ := c09Account("acc", 1, 1)
+		va.BaseAccount = base
+		ak.accs[string(c09Acc)] = va
+	} else {
+		ak.accs[string(c09Acc)] = &ethtypes.EthAccount{BaseAccount: base, CodeHash: common.Hash{}.Hex()}
+	}
+	s1 := zz.AnyInt64In("grant.start", 0, c09MaxStart)
+	glk := c09Periods("grant.lock", 1)
+	gvs := c09Periods("grant.vest", 1)
+	g := glk.TotalAmount()
+	zz.Assume(gvs.TotalAmount().AmountOf("aISLM").Equal(g.AmountOf("aISLM")))
+	zz.Assume(g.AmountOf("aISLM").IsPositive())
+	_, _, _, err := k.ApplyVestingSchedule(ctx, c09Funder, c09Acc, g, time.Unix(s1, 0), glk, gvs, merge)
+	if err != nil {
+		zz.Reach("?refused")
+		return
+	}
+	after := ak.accs[string(c09Acc)]
+	zz.Assert(after.GetAddress().Equals(c09Acc), "the address is kept")
+	zz.Assert(after.GetSequence() == seq, "the sequence of an existing account survives the schedule being applied (replay protection)")
+	zz.Assert(after.GetAccountNumber() == num, "the account number is kept")
+	zz.Assert(after.GetPubKey() != nil && after.GetPubKey().Equals(pk), "the public key is kept")
+	if merge {
+		zz.Reach("merged")
+	} else {
+		zz.Reach("converted")
+	}
+	zz.Reach("end")
+}
+
+// VerifC09_BalancesQuery: the public read path of the schedules. Query/Balances of a clawback vesting account reports, at
+// the block time, locked = original - (lockup periods ended), vested = vesting periods ended, unvested = original - vested -
+// for schedules whose lockup runs ahead of or behind the vesting, with and without delegations tracked on the account.
+func VerifC09_BalancesQuery() {
+	now := zz.AnyInt64In("now", 0, c09MaxStart+3*c09MaxLen)
+	k, ctx, ak, _ := c09World(now)
+	va, start := c09Account("acc", zz.ParamInt("lock", 2), zz.ParamInt("vest", 2))
+	if zz.AnyBool("hasDelegations") {
+		d := zz.AnyAmount("delegatedVesting", 64)
+		zz.Assume(d.LTE(va.OriginalVesting.AmountOf("aISLM")))
+		va.DelegatedVesting = sdk.NewCoins(sdk.NewCoin("aISLM", d))
+		va.DelegatedFree = sdk.NewCoins(sdk.NewCoin("aISLM", zz.AnyAmount("delegatedFree", 64)))
+	}
+	ak.accs[string(c09Acc)] = va
+	res, err := k.Balances(sdk.WrapSDKContext(ctx), &types.QueryBalancesRequest{Address: c09Acc.String()})
+	zz.Assert(err == nil && res != nil, "the query answers for a clawback vesting account")
+	ov := va.OriginalVesting.AmountOf("aISLM")
+	unlocked := c09Released(start, va.LockupPeriods, now)
+	vested := c09Released(start, va.VestingPeriods, now)
+	zz.Assert(res.Locked.AmountOf("aISLM").Equal(ov.Sub(unlocked)), "locked = original - lockup periods ended by the block time (locked + unlocked = original)")
+	zz.Assert(res.Vested.AmountOf("aISLM").Equal(vested), "vested = vesting periods ended by the block time")
+	zz.Assert(res.Unvested.AmountOf("aISLM").Equal(ov.Sub(vested)), "unvested = original - vested")
 	zz.Reach("end")
 }
